@@ -1,6 +1,10 @@
 package sqlgen
 
-import "github.com/ajitpratap0/GoSQLX/pkg/sql/ast"
+import (
+	"fmt"
+
+	"github.com/ajitpratap0/GoSQLX/pkg/sql/ast"
+)
 
 // The enumerated spaces.  Everything here is deterministic and complete for the
 // bound it states; nothing is sampled.
@@ -452,6 +456,21 @@ func ClauseOptions(yield func(name string, s S)) {
 	s = base()
 	s.From = []TableRef{{Name: "t1"}, {Sub: &q, Alias: "a1", Lateral: true}}
 	yield("from-lateral", s.Build())
+	// FROM lists with derived tables in every position (first / middle / last / all)
+	d1 := Sel{Items: []SelItem{{X: Func("f1", []X{Col("c1")}, FuncOpts{}), Alias: "a7", AsKw: true}}, From: []TableRef{{Name: "t5"}}, Where: xp(Bin(">", Col("c5"), Int("0")))}.Build()
+	d2 := Sel{Items: []SelItem{{X: Func("f2", []X{Col("c2")}, FuncOpts{}), Alias: "a8", AsKw: true}}, From: []TableRef{{Name: "t6"}}, Where: xp(Bin(">", Col("c6"), Int("0")))}.Build()
+	for m, fl := range [][]TableRef{
+		{{Sub: &d1, Alias: "a1"}, {Name: "t2"}},
+		{{Name: "t1"}, {Sub: &d1, Alias: "a1"}},
+		{{Name: "t1"}, {Sub: &d1, Alias: "a1"}, {Name: "t3"}},
+		{{Sub: &d1, Alias: "a1"}, {Sub: &d2, Alias: "a2"}},
+		{{Sub: &d2, Alias: "a2"}, {Sub: &d1, Alias: "a1"}},
+		{{Sub: &d1, Alias: "a1"}, {Name: "t2"}, {Sub: &d2, Alias: "a2"}},
+	} {
+		s = base()
+		s.From = fl
+		yield(fmt.Sprintf("from-list-derived-%d", m), s.Build())
+	}
 	// a derived table that is also the left operand of the first join, and derived tables on both sides
 	s = base()
 	s.From = []TableRef{{Sub: &q, Alias: "a1"}}
